@@ -59,6 +59,8 @@ SCHED = {
     "C15": dict(kinds=["overwrite"], classes=["nullvalue", "linearizability", "status", "held"]),
 }
 
+LEAF_TIE = False     # switched on once `yakmodel leaf` is in place
+
 ASSUME_SCHED = [
     "sequentially consistent interleavings only (one thread runs between two announced accesses); weak-memory reorderings are not explored",
     "schedules are sampled (seeded random walks over the yield points), not enumerated",
@@ -446,6 +448,72 @@ def sched_run(prop, tier, seed, replay_path=None):
     return cov, fails
 
 
+def leaf_tie(tier, seed):
+    """correspondence of Proto/Leaf (the model the C01 theorems are about): for each small
+    single-border scenario the Lean model enumerates every interleaving of its single-access steps
+    and prints the set of result tuples; every tuple the real code produces under the scheduler
+    must be one of them"""
+    binary, err = vlib.build_harness("scheddrv", schedeng.SCHED_DEFINES)
+    if binary is None:
+        return {"leaf_scenarios": 0}, [{"kind": "build", "detail": err, "found": False}]
+    nsc = 24 if tier == "quick" else 200
+    runs = 100 if tier == "quick" else 400
+
+    def enc(h):
+        o, res = h["op"][0], h["res"]
+        if o == "get":
+            w = res.split()
+            if w[0] == "WARN_NOT_EXIST":
+                return "ne"
+            if w[0] == "OK":
+                if len(w) < 2 or w[1] == "NULLVALUE":
+                    return "vnull"
+                try:
+                    return "v%d" % int(bytes.fromhex(w[1])[1:])
+                except ValueError:
+                    return "v?" + w[1]
+            return "?" + res
+        if o == "put":
+            return {"OK": "ok", "WARN_UNIQUE_RESTRICTION": "uq"}.get(res, "?" + res)
+        if o == "remove":
+            return {"OK": "ok", "OK_NOT_FOUND": "nf"}.get(res, "?" + res)
+        return "?" + res
+
+    def one(sd):
+        text, model, counts = schedeng.make_leaf_scenario(sd)
+        m = subprocess.run([vlib.YAKMODEL, "leaf"], input="\n".join(model) + "\n", capture_output=True, text=True)
+        outs = [l for l in m.stdout.splitlines() if l.startswith("LOUT")]
+        if m.returncode != 0 or len(outs) != 1:
+            return {"text": text, "error": "yakmodel leaf: " + (m.stdout + m.stderr)[-300:], "model": set(), "seen": {}, "lines": model}
+        allowed = set(outs[0][5:].split("|"))
+        seen, bad = {}, None
+        for pol in ("pct", "random"):
+            rc, out, err2 = schedeng.run_workload(binary, text, runs, sd * 100 + 3, pol)
+            for r in hist.parse(out):
+                if r.stuck or sum(counts) != len(r.h):
+                    continue
+                tup = ",".join(enc(h) for h in sorted(r.h, key=lambda h: (h["tid"], h["idx"])))
+                seen[tup] = seen.get(tup, 0) + 1
+                if tup not in allowed and bad is None:
+                    bad = (tup, r.sched)
+        return {"text": text, "model": allowed, "seen": seen, "bad": bad, "lines": model}
+
+    results = vlib.pmap(one, [seed * 1000 + i for i in range(nsc)])
+    fails = []
+    for r in results:
+        if r.get("error"):
+            fails.append({"kind": "leaftie", "detail": r["error"], "found": False, "workload": r["text"]})
+        elif r.get("bad"):
+            tup, sch = r["bad"]
+            fails.append({"kind": "leaftie", "found": False, "workload": r["text"], "schedule": sch,
+                          "detail": "the real code returned the results (%s), which no interleaving of the Leaf model produces (model: %s); scenario: %s" % (tup, sorted(r["model"]), r["lines"])})
+    cov = {"leaf_scenarios": len(results), "leaf_runs": sum(sum(r["seen"].values()) for r in results),
+           "leaf_model_outcomes": sum(len(r["model"]) for r in results),
+           "leaf_model_outcomes_observed_on_impl": sum(len(set(r["seen"]) & r["model"]) for r in results),
+           "leaf_sample": (results[0]["lines"] if results else [])}
+    return cov, fails
+
+
 def absorb_tie(tier, seed):
     """correspondence of Proto/Absorb (the model of the D13 repair): for each scenario the Lean model
     enumerates the scan results possible under every interleaving of its events; every result the
@@ -502,6 +570,10 @@ def check_sched(prop, tier, seed, replay_path=None):
     cov, fails = sched_run(prop, tier, seed, replay_path)
     if prop == "C04" and not replay_path:
         cov2, fails2 = absorb_tie(tier, seed)
+        cov.update(cov2)
+        fails = fails + fails2
+    if prop == "C01" and not replay_path and LEAF_TIE:
+        cov2, fails2 = leaf_tie(tier, seed)
         cov.update(cov2)
         fails = fails + fails2
     kf = vlib.known_findings()
